@@ -108,3 +108,15 @@ Print Assumptions C16_membership.
 Print Assumptions C16_get_key_reachable.
 Print Assumptions C16_spec_membership.
 Print Assumptions C16_nonvacuous.
+
+(* ---------- composition with the builder and codec theorems ---------- *)
+Require Import FstV.Builder FstV.Fst FstV.CodecSpec FstV.proofs.Closed FstV.proofs.StreamProofs FstV.proofs.ReaderProofs.
+
+(* end to end: on the bytes a builder writes for ANY key list with strictly increasing values *)
+Theorem C16_on_built_maps : forall summer ty rows cols kvs,
+  input_ok kvs -> ty < U64 -> (forall l, summer l < 4294967296) ->
+  values_increasing kvs = true ->
+  exists bs, build_map summer ty rows cols kvs = Ok bs /\
+    forall v, api_get_key bs v = Ok (spec_get_key kvs v).
+Proof. exact C16_closed. Qed.
+Print Assumptions C16_on_built_maps.
